@@ -327,6 +327,22 @@ pub fn run(run: &Run) {
             for_type!(st, n, ws(run, st, n));
         }
     }
+    fn em<L: Tab>(run: &Run, st: bool, n: usize) {
+        let fam = alpha::embedded3(n, false);
+        run.section(&format!("EMBEDDED n={} {}: every 3-variable function at ordered variable triples, as (f) and (f, next f)", n, L::tname(n)), false, &format!("{} tables g(x_a,x_b,x_c); single functions with the metamorphic list operations, and pairs of neighbours", fam.len()), fam.len() as u64, 8, |r, l| {
+            for k in r {
+                let f = &fam[k as usize];
+                step::<L>(l, st, n, std::slice::from_ref(f), k % 8 == 0);
+                let g = &fam[(k as usize + 1) % fam.len()];
+                step::<L>(l, st, n, &[f.clone(), g.clone()], false);
+            }
+        });
+    }
+    for n in 7..=9usize {
+        for st in [false, true] {
+            for_type!(st, n, em(run, st, n));
+        }
+    }
     histories(run);
     let _ = for_static!(0, nop());
 }
